@@ -149,7 +149,7 @@ def wrapped_build(spec, reference):
     the trailing comment (which its printer cannot render) removed"""
     from prettyprinter import comment, trailing_comment
     G.ensure_registered()
-    bad = G.GObj('make', 7, spec['fault'], spec['exc'])
+    bad = G.GObj('make', 7 if spec['fault'] == 'raise' else 6, spec['fault'], spec['exc'])
     bad.args = [1, 'x']
     if reference:
         core = G.Marker(G.safe_repr(BAD_REPR[0]))
@@ -196,7 +196,8 @@ def wrapped_oracle(spec, cfg):
             text[:400], want[:400])
     bad = [m for m in ws if 'raised an exception' in m]
     # one warning per invocation of the failing printer (a commented dict value is rendered twice)
-    if not bad or any('gobj_printer' not in m or 'boom-7' not in m or 'Falling back to default repr' not in m
+    tag = 'boom-7' if spec['fault'] == 'raise' else 'boom-6'
+    if not bad or any('gobj_printer' not in m or tag not in m or 'Falling back to default repr' not in m
                       for m in bad):
         return 'expected repr-fallback warnings naming the failing printer and its exception, got %r' % (
             [m[:120] for m in ws],)
